@@ -64,6 +64,7 @@ where
         infinite_source: repeat.is_none() && !data.is_empty(),
         horizon: 6,
         no_retire_check: true,
+        warmup: vec![],
         horizon_delta: 0,
         prefix_spec: repeat.is_none(),
         sync_check: false,
@@ -100,7 +101,9 @@ pub fn source_subjects() -> Vec<Subject> {
             }
             let variant = format!("len={len} repeat={repeat:?}");
             // VectorSource, with its marker tags.
-            let tags: Option<Vec<ATag>> = repeat.map(|r| {
+            // Infinite repeat: the markers of the 64 samples the
+            // specification covers.
+            let tags: Option<Vec<ATag>> = Some(repeat.unwrap_or(if len > 0 { 64u64.div_ceil(len as u64) } else { 0 })).map(|r| {
                 let mut t = vec![];
                 if len > 0 {
                     for k in 0..r {
